@@ -55,8 +55,10 @@ Step ==
   /\ l <= Len(Traces[tid]) /\ bad = ""
   /\ l' = l + 1 /\ UNCHANGED tid
   /\ LET e == Traces[tid][l] p == F(e, "p", 1) t == F(e, "t", 0) IN
-     /\ until' = IF e.e = "sc" THEN e.until ELSE until
+     \* (uz: run(until=0) at time 0 - a date that happens to be falsy; kept apart from 0 = "no limit" as -1)
+     /\ until' = IF e.e = "sc" THEN (IF F(e, "uz", FALSE) THEN 0 - 1 ELSE e.until) ELSE until
      /\ IF e.e \in {"y", "res", "act", "cb", "pend"} /\ until \in 1..9 /\ t > until THEN Fail("C18.ran_after_until")
+        ELSE IF e.e \in {"y", "res", "act", "cb", "pend"} /\ until = 0 - 1 /\ t > 0 THEN Fail("C18.ran_after_until")
         ELSE IF e.e \in {"y", "res", "act", "cb", "pend"} /\ until > 10 /\ ev[until - 10].trig /\ t > ev[until - 10].t
              THEN Fail("C18.ran_after_until")
         ELSE
